@@ -24,6 +24,7 @@ import (
 	"strings"
 	"sync"
 	"sync/atomic"
+	"syscall"
 	"time"
 
 	"go.einride.tech/can"
@@ -66,16 +67,20 @@ type world struct {
 	ctx       context.Context
 	cancel    context.CancelFunc
 
-	rx     *fakeRx
-	msgs   map[int]*fakeTxMsg // transmitted message of transmitter thread t
-	rmsgs  map[uint32]*fakeRxMsg
-	parked map[int]bool // transmitter believed to be in (or on its way to) select
-	stuck  map[int]bool
-	errInj error
-	nsteps int
-	dir    *directed     // non-nil: outcomes and hook bodies follow a model trace (directed.go)
-	t0     time.Time     // origin of the clock readings logged in DL tokens
-	skew   time.Duration // the clock handed to the runner = system clock + skew
+	rx       *fakeRx
+	msgs     map[int]*fakeTxMsg // transmitted message of transmitter thread t
+	rmsgs    map[uint32]*fakeRxMsg
+	parked   map[int]bool // transmitter believed to be in (or on its way to) select
+	stuck    map[int]bool
+	errInj   error
+	injected []error // the errors failing TransmitFrame calls returned
+	seq      int
+	rw       bool         // the node lock handed to the runner also offers RLocker() (a sync.RWMutex-like node)
+	shared   map[int]bool // thread holds the lock through the RLocker only
+	nsteps   int
+	dir      *directed     // non-nil: outcomes and hook bodies follow a model trace (directed.go)
+	t0       time.Time     // origin of the clock readings logged in DL tokens
+	skew     time.Duration // the clock handed to the runner = system clock + skew
 }
 
 // The clock.Clock handed to the runner functions is deliberately NOT the system clock in three of
@@ -94,6 +99,9 @@ func newWorld() *world {
 	w.ctx, w.cancel = context.WithCancel(context.Background())
 	w.t0 = time.Now()
 	w.skew = clockSkews[worldSeq%len(clockSkews)]
+	w.seq = worldSeq
+	w.rw = worldSeq%3 == 1
+	w.shared = map[int]bool{}
 	worldSeq++
 	return w
 }
@@ -153,6 +161,17 @@ func (w *world) held(tid int) string {
 	return "0"
 }
 
+// heldFor: does thread tid hold the node lock in the way the access needs?  Through the shared side
+// (RLocker) only reads are covered: an access that WRITES message state (receive / transmit time,
+// unmarshal, reset) under a shared lock is an access without the node lock.
+func (w *world) heldFor(tid int, what string) string {
+	write := what == "time" || what == "other" || strings.HasPrefix(what, "unm")
+	if w.owner == tid && !(write && w.shared[tid]) {
+		return "1"
+	}
+	return "0"
+}
+
 func b01(b bool) string {
 	if b {
 		return "1"
@@ -173,6 +192,7 @@ func (n *fakeNode) Lock() {
 
 func (n *fakeNode) Unlock() {
 	t := n.w.point("U")
+	delete(n.w.shared, t)
 	if n.w.owner == t {
 		n.w.owner = 0
 		n.w.emit(fmt.Sprintf("U.%x", t))
@@ -191,6 +211,25 @@ func (n *fakeNode) Unlock() {
 		n.w.stepDone()
 	}
 }
+
+// fakeRWNode: the second flavour of the instrumented locker - it also offers RLocker(), like a node
+// that embeds a sync.RWMutex.  Acquisitions through the RLocker are scheduled like exclusive ones
+// (so the logged order stays a trace of the exclusive-ownership LTS) but recorded as shared.
+type fakeRWNode struct{ *fakeNode }
+
+type sharedSide struct{ n *fakeNode }
+
+func (n *fakeRWNode) RLocker() sync.Locker { return sharedSide{n.fakeNode} }
+
+func (s sharedSide) Lock() {
+	t := s.n.w.point("L")
+	s.n.w.owner = t
+	s.n.w.shared[t] = true
+	s.n.w.emit(fmt.Sprintf("L.%x", t))
+	s.n.w.stepDone()
+}
+
+func (s sharedSide) Unlock() { s.n.Unlock() }
 
 func (n *fakeNode) Connect() (net.Conn, error) { return nil, errors.New("not used") }
 
@@ -216,8 +255,8 @@ func (n *fakeNode) ReceivedMessage(id uint32) (canrunner.ReceivedMessage, bool) 
 
 type fakeClock struct{ skew time.Duration }
 
-func (c *fakeClock) After(time.Duration) <-chan time.Time { return make(chan time.Time) }
-func (c *fakeClock) Now() time.Time                       { return time.Now().Add(c.skew) }
+func (c *fakeClock) After(d time.Duration) <-chan time.Time { return time.After(d) }
+func (c *fakeClock) Now() time.Time                         { return time.Now().Add(c.skew) }
 func (c *fakeClock) NewTicker(d time.Duration) clock.Ticker {
 	panic("the runner is not expected to create tickers through the clock")
 }
@@ -409,7 +448,8 @@ func (m *fakeRxMsg) access(what string) { m.accessf(konst(what)) }
 
 func (m *fakeRxMsg) accessf(what func() string) {
 	t := m.w.point("A")
-	m.w.emit(fmt.Sprintf("A.%x.%s.%s", t, what(), m.w.held(t)))
+	s := what()
+	m.w.emit(fmt.Sprintf("A.%x.%s.%s", t, s, m.w.heldFor(t, s)))
 	m.w.stepDone()
 }
 
@@ -486,7 +526,7 @@ func (m *fakeTxMsg) wakeLen() int {
 func (m *fakeTxMsg) access(what func() string) {
 	t := m.w.point("A")
 	s := what()
-	m.w.emit(fmt.Sprintf("A.%x.%s.%s", t, s, m.w.held(t)))
+	m.w.emit(fmt.Sprintf("A.%x.%s.%s", t, s, m.w.heldFor(t, s)))
 	m.lastFlag = strings.HasPrefix(s, "flag")
 	m.w.stepDone()
 }
@@ -574,9 +614,40 @@ func (x *fakeTx) TransmitFrame(ctx context.Context, f can.Frame) error {
 	x.m.lastXok = !fail
 	x.w.stepDone()
 	if fail {
-		return x.w.errInj
+		return x.w.transmitError(t, x.m.txN)
 	}
 	return nil
+}
+
+// transmitError: a failing TransmitFrame returns what a real frame transmitter returns - a
+// *net.OpError around a system call error (ENOBUFS: transmit queue full, EAGAIN, EINTR, ENETDOWN), a
+// write deadline that expired, a context error - in turn.  Whatever the kind, the runner has to
+// return it (wrapped) and must not touch the message again.
+func (w *world) transmitError(t, k int) error {
+	sys := func(e syscall.Errno) error {
+		return &net.OpError{Op: "write", Net: "can", Err: os.NewSyscallError("sendmsg", e)}
+	}
+	var err error
+	switch (t + k + w.seq) % 8 {
+	case 0, 4:
+		err = fmt.Errorf("transmit frame: %w", sys(syscall.ENOBUFS))
+	case 1:
+		err = fmt.Errorf("transmit frame: %w", sys(syscall.EAGAIN))
+	case 2:
+		err = fmt.Errorf("transmit frame: %w", sys(syscall.EINTR))
+	case 3:
+		err = fmt.Errorf("transmit frame: %w", &net.OpError{Op: "write", Net: "can", Err: os.ErrDeadlineExceeded})
+	case 5:
+		err = fmt.Errorf("transmit frame: %w", context.DeadlineExceeded)
+	case 6:
+		err = fmt.Errorf("transmit frame: %w", sys(syscall.ENETDOWN))
+	default:
+		err = w.errInj
+	}
+	w.mu.Lock()
+	w.injected = append(w.injected, err)
+	w.mu.Unlock()
+	return err
 }
 
 // ---------------------------------------------------------------- starting runner threads
@@ -588,6 +659,13 @@ func (w *world) finish(tid int, err error) {
 		if errors.Is(err, w.errInj) {
 			code = "0"
 		}
+		w.mu.Lock()
+		for _, e := range w.injected {
+			if errors.Is(err, e) {
+				code = "0"
+			}
+		}
+		w.mu.Unlock()
 	}
 	w.mu.Lock()
 	w.log = append(w.log, fmt.Sprintf("DN.%x.%s", tid, code))
@@ -621,12 +699,20 @@ func (w *world) caught(tid int) {
 	}
 }
 
+// runnerNode: the node / locker the runner functions get (one of the two flavours).
+func (w *world) runnerNode(n *fakeNode) canrunner.Node {
+	if w.rw {
+		return &fakeRWNode{n}
+	}
+	return n
+}
+
 func (w *world) startReceiver(tid int, n *fakeNode, script []rxItem) {
 	w.rx = &fakeRx{w: w, script: script}
 	go func() {
 		defer w.caught(tid)
 		w.reg(tid)
-		err := canrunner.RunMessageReceiver(w.ctx, w.rx, n, &fakeClock{skew: w.skew})
+		err := canrunner.RunMessageReceiver(w.ctx, w.rx, w.runnerNode(n), &fakeClock{skew: w.skew})
 		w.finish(tid, err)
 	}()
 }
@@ -635,7 +721,7 @@ func (w *world) startTransmitter(tid int, n *fakeNode, m *fakeTxMsg) {
 	go func() {
 		defer w.caught(tid)
 		w.reg(tid)
-		err := canrunner.RunMessageTransmitter(w.ctx, &fakeTx{w: w, m: m}, n, m, &fakeClock{skew: w.skew})
+		err := canrunner.RunMessageTransmitter(w.ctx, &fakeTx{w: w, m: m}, w.runnerNode(n), m, &fakeClock{skew: w.skew})
 		w.finish(tid, err)
 	}()
 }
